@@ -177,8 +177,12 @@ def plan(ctx):
         for seed in seeds:
             for fd in (False, True):
                 rnd.append((w, l, seed, fd))
+    big = [(10, 9, ctx.seed % 7, False), (9, 10, ctx.seed % 7, True)]           # 90 tiles: index offsets beyond 256
+    for b in big:
+        shards.append({"kind": "random", "boards": [b], "lo": 0, "triples": TRIPLES[:1]})
     for i in range(0, len(rnd), 4):
         shards.append({"kind": "random", "boards": rnd[i:i + 4], "lo": i})
+    spaces.append({"large_random_boards_w_l_seed_forcedown": [list(b) for b in big]})
     spaces.append({"random_boards_from_gen_rnd_board": len(rnd), "sizes_w_x_l": [list(s) for s in sizes], "seeds": [seeds[0], seeds[-1]]})
     return shards, spaces
 
